@@ -129,16 +129,20 @@ if __name__ == "__main__":
     f, ljobs = lookup.jobs(True, [(64, 1), (16, 2), (16, 3)] if not thorough else [(128, 1), (32, 2), (32, 3), (16, 4)], "C05")
     # 2. 1-D basis routines
     fns, bjobs = basis_jobs(1000 if not thorough else 65535, 4096 if not thorough else (1 << 24), ["float", "double"])
-    alljobs = ljobs + bjobs
+    import c05_driver
+    drv, djobs = c05_driver.jobs(thorough)
+    alljobs = ljobs + bjobs + djobs
     vlib.run_jobs(alljobs, nproc=4)
     rep.add_jobs(alljobs)
     nd_bounded(rep, thorough)
     lookup.common_assumptions(rep, f, True)
     for fn in fns: rep.functions.append(fn.info())
+    rep.functions.append(drv.info())
     rep.assume("1-D routines: knots points `order` doubles into one object of nknots+2*order doubles (the allocation idiom of fitsio.h/fit.h/convolve.h); that every producer allocates this way is checked only syntactically (tools/padding_scan)",
                "bsplvb (no nknots parameter) is analysed inside its callers, its loops closed by their own invariants; it has no separate function contract",
                "bspline/bspline_deriv: memory precondition written with __CPROVER_r_ok so that the recursive call sites can be checked against the same contract",
                "template parameter Float instantiated textually (-DFloat=float / double)",
+               "driver ndsplineeval<Float>: verified by CBMC against the callee contracts in call-site form (r_ok/w_ok instead of is_fresh; same memory requirement) for symbolic orders <= 16, nknots <= 64, any bitmask, ndim 1..3(4) enumerated; the other drivers (ndsplineeval_deriv, gradient, evaluator twins) are covered by the bounded E3 runs only",
                "N-D block walkers (generic + every instantiated specialisation, scalar and SIMD) and gradient drivers: BOUNDED - executed from CBMC's GOTO program on exactly-sized objects for enumerated shapes with the interpreter's bounds checks; counted separately (obligations_bounded), never as proved",
                "gradient refusal: tables with ndim+1 > PHOTOSPLINE_MAXDIM are refused (ghost flag for the exception, R7) before anything is written, ndim 8, 9, 10 enumerated")
     rep.finish(replayer)
